@@ -16,9 +16,28 @@ typedef struct {
   t_bool g_fl;     /* R: g_val is the exact value (it fits a long and came from set_si/set_ui) */
   t_long g_val;
   t_int  g_sgn;    /* R: sign of the value */
+  /* R: g_val doubles as the IDENTITY of the value when g_fl is false (an opaque 64-bit tag) */
+  t_uchar g_zop; t_long g_za, g_zb;   /* R: provenance of an integer result: which GMP operation on which operand identities */
 #endif
 } __mpz_struct;
-typedef struct { __mpz_struct _mp_num; __mpz_struct _mp_den; } __mpq_struct;
+typedef struct { __mpz_struct _mp_num; __mpz_struct _mp_den;
+#ifndef OSMT_GMP_EXACT
+  t_uchar g_op; t_long g_an, g_ad, g_bn, g_bd;   /* R: provenance of a rational result (operation, identities of both operands) */
+#endif
+} __mpq_struct;
+#define OSMT_OP_NONE 0
+#define OSMT_OP_ADD 2
+#define OSMT_OP_SUB 3
+#define OSMT_OP_MUL 4
+#define OSMT_OP_DIV 5
+#define OSMT_OP_NEG 6
+#define OSMT_OP_INV 7
+#define OSMT_OP_CDIV 8
+#define OSMT_OP_FDIV 9
+#define OSMT_OP_DIVEXACT 10
+#define OSMT_OP_GCD 11
+#define OSMT_OP_LCM 12
+#define OSMT_OP_TDIV 13
 typedef __mpq_struct *mpq_ptr; typedef const __mpq_struct *mpq_srcptr;
 typedef __mpz_struct *mpz_ptr; typedef const __mpz_struct *mpz_srcptr;
 /* the C++ wrapper classes are opaque */
